@@ -300,9 +300,11 @@ where
                 //    ValueEntries.
                 // 2. This method will set the dirty flag to prevent this new
                 //    ValueEntry from being evicted by an expiration policy.
-                // 3. This method will update the policy_weight with the new weight.
+                // 3. The policy_weight in the shared EntryInfo keeps the weight that
+                //    the eviction counters account for. It will be updated to the new
+                //    weight when the write op is applied.
                 let old_weight = entry.policy_weight();
-                *entry = self.new_value_entry_from(value.clone(), ts, weight, entry);
+                *entry = self.new_value_entry_from(value.clone(), ts, entry);
                 update_op = Some(WriteOp::Upsert {
                     key_hash: KeyHash::new(Arc::clone(&key), hash),
                     value_entry: TrioArc::clone(entry),
@@ -345,7 +347,6 @@ where
         &self,
         value: V,
         timestamp: Instant,
-        policy_weight: u32,
         other: &ValueEntry<K, V>,
     ) -> TrioArc<ValueEntry<K, V>> {
         let info = TrioArc::clone(other.entry_info());
@@ -354,7 +355,6 @@ where
         info.set_dirty(true);
         info.set_last_accessed(timestamp);
         info.set_last_modified(timestamp);
-        info.set_policy_weight(policy_weight);
         TrioArc::new(ValueEntry::new(value, info))
     }
 
@@ -841,7 +841,7 @@ where
         &self,
         kh: KeyHash<K>,
         entry: TrioArc<ValueEntry<K, V>>,
-        old_weight: u32,
+        _old_weight: u32,
         new_weight: u32,
         deqs: &mut Deques<K>,
         freq: &FrequencySketch,
@@ -870,8 +870,12 @@ where
 
         if entry.is_admitted() {
             // The entry has been already admitted, so treat this as an update.
-            counters.saturating_sub(0, old_weight);
+            // Replace the weight the counters currently account for this entry
+            // (it may differ from `old_weight` when several updates of the key are
+            // queued) with the new weight.
+            counters.saturating_sub(0, entry.policy_weight());
             counters.saturating_add(0, new_weight);
+            entry.entry_info().set_policy_weight(new_weight);
             deqs.move_to_back_ao(&entry);
             deqs.move_to_back_wo(&entry);
             return;
@@ -1028,6 +1032,7 @@ where
         counters: &mut EvictionCounters,
     ) {
         let key = Arc::clone(&kh.key);
+        entry.entry_info().set_policy_weight(policy_weight);
         counters.saturating_add(1, policy_weight);
         deqs.push_back_ao(
             CacheRegion::MainProbation,
